@@ -108,8 +108,10 @@ def step (E : Env) (cfg : Cfg) (base url : Str) : Step :=
         match finish E cfg u1 with
         | .error e => .raise e
         | .ok u2 =>
+          -- `if canonicalize: … if not is_url(url, …): continue` (the canonical form is tested again)
+          if cfg.canonicalize && !E.isUrl u2 then .skip
           -- `if url == base_url: continue`
-          if u2 = base then .skip else .yield u2
+          else if u2 = base then .skip else .yield u2
 
 /-- the `for` loop with the `already_seen` set (links_from_html.py:22-55); the result is the
 list of yielded links and the exception that ended the generator, if any -/
